@@ -27,6 +27,90 @@ H2 = ("proof { reveal_with_fuel(ctor_split, 2); let r0 = rows0[n_b]; "
       "assert(ctor_img(r0, bvar.name@, c, cases0[c].vars@, seq![cases@[c].rows@.last()])); } }")
 
 
+class LitSplit:
+    """invariant and proof hints for the row-splitting loop of compile_string_case / compile_int_case_impl
+    (kf: the spec function reading a literal's key; keyv: the view of the exec `key`; kt: the spec key type)"""
+
+    def __init__(self, kf, keyv, kt):
+        self.kf, self.keyv, self.kt = kf, keyv, kt
+        v, n = V, "rows0.len() - __rv@.len()"
+        self.inv = (f"invariant __rv@.len() <= rows0.len(), __rv@ == rows0.subrange(rows0.len() - __rv@.len(), rows0.len() as int), rows0 == rows@,\n"
+                    f"  forall|i: int| 0 <= i < value_rows.entries().len() ==> lit_split(rows0, {n}, {v}, {kf}, Some((#[trigger] value_rows.entries()[i]).0), value_rows.entries()[i].1),\n"
+                    f"  lit_split(rows0, {n}, {v}, {kf}, None::<{kt}>, fallback_rows@), lit_split(rows0, {n}, {v}, {kf}, None::<{kt}>, default_rows@),\n"
+                    f"  forall|j: int, s: {kt}| 0 <= j < {n} && #[trigger] tests_lit(rows0[j], {v}, {kf}, s) ==> value_rows.has(s),\n"
+                    "decreases __rv@.len(),")
+        self.body = ("let ghost n_b = rows0.len() - __rv@.len(); let ghost es_b = value_rows.entries(); let ghost fb_b = fallback_rows@; "
+                     "let ghost df_b = default_rows@; let ghost vr_b = value_rows;")
+        self.row = "let ghost r0 = rows0[n_b]; proof { reveal_with_fuel(lit_split, 2); }"
+        self.col = (f"let ghost col_g = col; let ghost kk = choose|k: int| col_of(r0, {v}, k) && col_g == r0.columns@[k] && row.columns@ == r0.columns@.remove(k);\n"
+                    f"proof {{ assert(col_of(r0, {v}, kk)); }}")
+        self.key = f"proof {{ assert(lit_at(r0, kk, {kf}) == Some({keyv})); assert(tests_lit(r0, {v}, {kf}, {keyv})); }}"
+        self.new = (f"proof {{ assert forall|j: int| 0 <= j < n_b implies !tests_lit(#[trigger] rows0[j], {v}, {kf}, {keyv}) by {{ if tests_lit(rows0[j], {v}, {kf}, {keyv}) {{ assert(vr_b.has({keyv})); }} }}\n"
+                    f"  if lit_split(rows0, n_b as int, {v}, {kf}, None::<{kt}>, __init@) {{ lemma_split_unseen(rows0, n_b as int, {v}, {kf}, {keyv}, __init@); }} }}")
+        self.pre = (f"proof {{ if !vr_b.has({keyv}) {{ assert(value_rows.entries()[es_b.len() as int].0 == {keyv}); }} assert(value_rows.has({keyv})); }}\n"
+                    "let ghost es_m = value_rows.entries(); let ghost vr_m = value_rows;")
+        self.post = f"""proof {{
+    assert(lit_img(r0, {v}, {kf}, None::<{kt}>, Seq::<Row>::empty()));
+    assert forall|i: int| 0 <= i < value_rows.entries().len() implies lit_split(rows0, n_b + 1, {v}, {kf}, Some((#[trigger] value_rows.entries()[i]).0), value_rows.entries()[i].1) by {{
+        let e = value_rows.entries()[i];
+        assert(lit_split(rows0, n_b as int, {v}, {kf}, Some(es_m[i].0), es_m[i].1));
+        if e.0 == {keyv} {{ assert(e.1.drop_last() =~= es_m[i].1); assert(lit_img(r0, {v}, {kf}, Some({keyv}), seq![e.1.last()])); }}
+        else {{ assert(e.1 == es_m[i].1); assert(lit_img(r0, {v}, {kf}, Some(e.0), Seq::<Row>::empty())); }}
+    }}
+    assert forall|j: int, s: {kt}| 0 <= j < n_b + 1 && #[trigger] tests_lit(rows0[j], {v}, {kf}, s) implies value_rows.has(s) by {{
+        if j == n_b {{ let k2 = choose|k: int| #[trigger] col_of(r0, {v}, k) && lit_at(r0, k, {kf}) == Some(s); assert(k2 == kk); assert(s == {keyv}); }}
+        else {{ assert(vr_b.has(s)); let w0 = choose|i: int| 0 <= i < es_b.len() && (#[trigger] es_b[i]).0 == s; assert(es_m[w0].0 == s); }}
+        assert(vr_m.has(s));
+        let w = choose|i: int| 0 <= i < es_m.len() && (#[trigger] es_m[i]).0 == s; assert(value_rows.entries()[w].0 == s);
+    }}
+}}"""
+
+    def loop(self, header):
+        return self.inv if "__rv.len()" in header else None
+
+    def all(self, nolit):
+        # an unconstrained row (wildcard test / no test) was appended to every sub-matrix
+        v, kf, kt = V, self.kf, self.kt
+        return f"""proof {{
+    assert forall|i: int| 0 <= i < value_rows.entries().len() implies lit_split(rows0, n_b + 1, {v}, {kf}, Some((#[trigger] value_rows.entries()[i]).0), value_rows.entries()[i].1) by {{
+        let e = value_rows.entries()[i];
+        assert(lit_split(rows0, n_b as int, {v}, {kf}, Some(es_b[i].0), es_b[i].1));
+        assert(e.1.drop_last() =~= es_b[i].1); assert(lit_img(r0, {v}, {kf}, Some(e.0), seq![e.1.last()]));
+    }}
+    assert(fallback_rows@.drop_last() =~= fb_b); assert(lit_img(r0, {v}, {kf}, None::<{kt}>, seq![fallback_rows@.last()]));
+    assert(default_rows@.drop_last() =~= df_b); assert(lit_img(r0, {v}, {kf}, None::<{kt}>, seq![default_rows@.last()]));
+    assert forall|j: int, s: {kt}| 0 <= j < n_b + 1 && #[trigger] tests_lit(rows0[j], {v}, {kf}, s) implies value_rows.has(s) by {{
+        if j == n_b {{ let k2 = choose|k: int| #[trigger] col_of(r0, {v}, k) && lit_at(r0, k, {kf}) == Some(s); {nolit} assert(false); }}
+        assert(vr_b.has(s)); let w0 = choose|i: int| 0 <= i < es_b.len() && (#[trigger] es_b[i]).0 == s; assert(value_rows.entries()[w0].0 == s);
+    }}
+}}"""
+
+    def ghost(self):
+        return [("if let Some(col) = row.remove_column(&bvar.name) {", "line-after", self.col),
+                ("default_rows.push(row);", "line-after", self.all("assert(k2 == kk);"), 0),
+                ("default_rows.push(row);", "line-after", self.all(f"assert(col_of(r0, {V}, k2));"), 1)]
+
+    def placeholders(self):
+        return [("SPLIT_BODY", self.body), ("SPLIT_ROW", self.row), ("SPLIT_KEY", self.key), ("SPLIT_NEW_KEY", self.new), ("SPLIT_PRE", self.pre), ("SPLIT_POST", self.post)]
+
+    def contract(self, extra_req=""):
+        v, kf, kt = V, self.kf, self.kt
+        return f"""{extra_req}ensures forall|i: int| 0 <= i < r.0.entries().len() ==> lit_split(rows@, rows@.len() as int, {v}, {kf}, Some((#[trigger] r.0.entries()[i]).0), r.0.entries()[i].1),
+            lit_split(rows@, rows@.len() as int, {v}, {kf}, None::<{kt}>, r.1@),
+            forall|j: int, s: {kt}| 0 <= j < rows@.len() && #[trigger] tests_lit(rows@[j], {v}, {kf}, s) ==> r.0.has(s),"""
+
+
+SPLIT_S = LitSplit("str_kf()", "key@", "Seq<char>")
+SPLIT_I = LitSplit("ext_of(extract)", "key", "T")
+SPLIT_PRE_RW = [
+    ("for mut row in rows {", "let ghost rows0 = rows@; let mut __rv = rows; while __rv.len() > 0 { SPLIT_BODY let mut row = __rv.remove(0); SPLIT_ROW"),
+    (re.compile(r"for rows in value_rows\.values_mut\(\) \{\s*rows\.push\((\w+)\.clone\(\)\);\s*\}"), r"value_rows.push_all(&\1);", "*"),
+]
+SPLIT_OBL = ("every literal's sub-matrix and the default sub-matrix are, in the original relative order, the rows' contributions: an "
+             "unconstrained row (no test / wildcard) goes to EVERY sub-matrix — also to those of literals first seen later — and to "
+             "the default; a row testing literal s goes to the sub-matrix of s only; every tested literal has a sub-matrix")
+
+
 def CC_LOOPS(header):
     keep = ("cases@.len() == cases0.len(), forall|c: int| 0 <= c < cases@.len() ==> (#[trigger] cases@[c]).vars == cases0[c].vars && cases@[c].constructor == cases0[c].constructor,")
     if "__rv.len()" in header:
@@ -195,5 +279,40 @@ UNIT = Unit(
                   ("                    body: row.body,\n                });", "line-after", H1),
                   (r"@after-loop:__ci\s*<", "", H2)],
            loop_fn=lambda k, header, kw: CC_LOOPS(header)),
+        Fn(file=CM, name="compile_string_case", rename="string_case_split", ret="r", attrs="#[verifier::loop_isolation(false)]\n#[verifier::rlimit(60)]",
+           rules=["attrs", ("strip", "tast::"), "mem_take"],
+           cut_before="let arms = value_rows", cut_tail="    (value_rows, default_rows)",
+           pre_rewrites=SPLIT_PRE_RW + [
+               ("let body_ty = rows.first().map(|r| r.get_ty()).unwrap_or(Ty::TUnit);", "let body_ty = first_row_ty(&rows);"),
+               ("let mut value_rows: IndexMap<String, Vec<Row>> = IndexMap::new();", "let mut value_rows: ValMap = ValMap::new();"),
+               (re.compile(r'let key = value\s*\.as_str\(\)\s*\.expect\("[^"]*"\)\s*\.to_string\(\);'),
+                "let key = match value.as_str() { Some(__s) => str_to_string(__s), None => { proof { assume(false); } unreached() } }; SPLIT_KEY", 1),
+               (re.compile(r"let entry = value_rows\s*\.entry\(key\)\s*\.or_insert_with\(\|\| ((?:[^()]|\([^()]*\))*)\);"),
+                r"if !value_rows.contains_key(&key) { let __init = \1; SPLIT_NEW_KEY value_rows.insert_new(key.clone(), __init); } SPLIT_PRE", 1),
+               (re.compile(r"\bentry\.push\(row\);"), "value_rows.push_to(&key, row); SPLIT_POST", 1),
+           ],
+           rewrites=[(re.compile(r"\) -> core::Expr \{"), ") -> (ValMap, Vec<Row>) {", 1),
+                     ('_ => unreachable!("expected string pattern"),', "_ => { proof { assume(false); } }"),
+                     (re.compile(r"\.clone\(\)"), ".vclone()", "*")] + SPLIT_S.placeholders(),
+           obligation=SPLIT_OBL, contract=SPLIT_S.contract(), ghost=SPLIT_S.ghost(),
+           loop_fn=lambda k, header, kw: SPLIT_S.loop(header)),
+        Fn(file=CM, name="compile_int_case_impl", rename="int_case_split", ret="r", attrs="#[verifier::loop_isolation(false)]\n#[verifier::rlimit(60)]",
+           rules=["attrs", ("strip", "tast::"), "mem_take"],
+           cut_before="if default_rows.is_empty() {\n        let message", cut_tail="    (value_rows, default_rows)",
+           pre_rewrites=SPLIT_PRE_RW + [
+               ("let body_ty = rows.first().map(|r| r.get_ty()).unwrap_or(Ty::TUnit);", "let body_ty = first_row_ty(&rows);"),
+               ("let mut value_rows: IndexMap<T, Vec<Row>> = IndexMap::new();", "let mut value_rows: IntMap<T> = IntMap::<T>::new();"),
+               (re.compile(r'let key = extract\(&value\)\.expect\("[^"]*"\);'),
+                "let key = match extract(&value) { Some(__k) => __k, None => { proof { assume(false); } unreached() } }; SPLIT_KEY", 1),
+               (re.compile(r"let entry = value_rows\s*\.entry\(key\)\s*\.or_insert_with\(\|\| ((?:[^()]|\([^()]*\))*)\);"),
+                r"if !value_rows.contains_key(&key) { let __init = \1; SPLIT_NEW_KEY value_rows.insert_new(key, __init); } SPLIT_PRE", 1),
+               (re.compile(r"\bentry\.push\(row\);"), "value_rows.push_to(&key, row); SPLIT_POST", 1),
+           ],
+           rewrites=[(re.compile(r"\) -> core::Expr\s*where"), ") -> (IntMap<T>, Vec<Row>)\nwhere", 1),
+                     ('_ => unreachable!("expected integer pattern"),', "_ => { proof { assume(false); } }"),
+                     (re.compile(r"\.clone\(\)"), ".vclone()", "*")] + SPLIT_I.placeholders(),
+           obligation=SPLIT_OBL + " (integer literals of every width: the literal's key is whatever the `extract` closure reads from the pattern)",
+           contract=SPLIT_I.contract("requires ext_ok(extract),\n        "), ghost=SPLIT_I.ghost(),
+           loop_fn=lambda k, header, kw: SPLIT_I.loop(header)),
     ],
 )
